@@ -128,7 +128,7 @@ def run_harness(h, params, tier, seed):
            "inconclusive_list": [], "solver_s": 0.0, "branch_s": 0.0, "validated": 0, "validation_errors": [],
            "samples": [], "axioms": [], "how": {}, "harness_errors": [], "budget_exhausted": False, "by_name": {}}
     body = lambda c: h.body(c, **{k: v for k, v in bparams.items() if k != "shard"})
-    ex = Explorer(body, opts=opts, max_paths=opts.get("max_paths", 600), max_depth=opts.get("max_depth", 80),
+    ex = Explorer(body, opts=opts, max_paths=opts.get("max_paths", 1500 if tier == "quick" else 8000), max_depth=opts.get("max_depth", 80),
                   deadline=t_start + budget)
     mods = symnp.kawin_modules()
     hmod = sys.modules.get(h.body.__module__)
@@ -148,6 +148,7 @@ def run_harness(h, params, tier, seed):
         res["inconclusive_list"].append({"name": "*", "how": "path/wall budget exhausted with %d scheduled paths unexplored: coverage of this parameter set is incomplete" % len(ex.pending)})
     axioms = set()
     sample_left = 2
+    xcheck_pool = []
     for rec in paths:
         ctx = rec["ctx"]
         axioms |= ctx.axioms_used
@@ -201,10 +202,16 @@ def run_harness(h, params, tier, seed):
                 res["discharged"] += 1; bn["discharged"] += 1
                 hk = r.how.split(" depth")[0]
                 res["how"][hk] = res["how"].get(hk, 0) + 1
-                if sample_left > 0 and r.smt2:
-                    res["samples"].append({"obligation": r.name, "path_decisions": len(ctx.decisions), "how": r.how,
-                                           "smt2_head": r.smt2[:1200]})
-                    sample_left -= 1
+                if getattr(r, "q", None) is not None and not isinstance(r.q, bool):
+                    xcheck_pool.append((ctx, r))
+                if sample_left > 0 and getattr(r, "q", None) is not None:
+                    try:
+                        txt = solve.export_smt2(ctx, r.q)
+                        res["samples"].append({"obligation": r.name, "path_decisions": len(ctx.decisions), "how": r.how,
+                                               "inputs": ctx.input_order[:12], "smt2_head": txt[:1500]})
+                        sample_left -= 1
+                    except Exception:
+                        pass
             elif r.status == "inconclusive":
                 res["inconclusive"] += 1; bn["inconclusive"] += 1
                 res["inconclusive_list"].append({"name": r.name, "how": r.how, "time": round(r.time, 2)})
@@ -259,6 +266,22 @@ def run_harness(h, params, tier, seed):
                         res["inconclusive"] += 1
                         res["nonrepro"].append({"name": r.name, "concrete": rp, "inputs": {k: _jsonable(v) for k, v in r.model.items()}})
     res["axioms"] = sorted(axioms)
+    # --- second solver: a sample of the discharged obligations is re-decided by cvc5 (thorough tier); `sat` = disagreement
+    res["cvc5"] = {"checked": 0, "unsat": 0, "unknown": 0, "sat": 0}
+    if tier == "thorough" and xcheck_pool and not opts.get("no_cvc5_crosscheck") and not any(d.kind.startswith("uf") is False and False for d in []):
+        step = max(1, len(xcheck_pool) // 4)
+        for (cx, r) in xcheck_pool[::step][:4]:
+            if any(z3.is_fp(v) for v in cx.inputs.values()):
+                continue
+            try:
+                txt = solve.export_smt2(cx, r.q)
+            except Exception:
+                continue
+            verdict = solve.fork_call(lambda: solve.cvc5_check(txt, 15.0), 25.0) or "unknown"
+            res["cvc5"]["checked"] += 1
+            res["cvc5"][verdict] = res["cvc5"].get(verdict, 0) + 1
+            if verdict == "sat":
+                res["harness_errors"].append("solver disagreement: z3 discharged '%s' but cvc5 reports sat" % r.name)
     # --- shim validation: concrete run on plain numpy vs. evaluated symbolic terms
     rng = np.random.default_rng(seed)
     nval = h.validate if tier == "quick" else max(h.validate, 2 * h.validate)
